@@ -207,6 +207,19 @@ def intr_next_delay_contract(ex, args, name):
     fuzz = F_fuzz()(zint(ex.getf(sub, 'ID')), zint(attempts))
     ex.assume(z3.And(nominal >= 0, nominal <= zint(mx) + zint(mx) / 10**12 + 2, fuzz >= 0, fuzz < 10**9))
     ex.env.setdefault('backoffs', []).append((mn, mx, attempts, nominal, fuzz))
+    # true facts about the real function on the default configuration and small attempt numbers (what C04 establishes), so that a
+    # counterexample which depends on how long a lease is can be chosen replayable; preferred in replay models, see below
+    from fractions import Fraction
+    if not ex.env.get('backoff_facts'):
+        ex.env['backoff_facts'] = True
+        for k in range(0, 9):
+            ref = min(Fraction(MAX_DEFAULT), Fraction(MIN_DEFAULT) * Fraction(11, 10) ** k)
+            tol = ref / 10**12 + 2
+            app = F_nominal()(z3.IntVal(MIN_DEFAULT), z3.IntVal(MAX_DEFAULT), z3.IntVal(k))
+            ex.assume(z3.And(z3.ToReal(app) >= z3.RealVal(ref - tol), z3.ToReal(app) <= z3.RealVal(ref + tol)))
+    pref = ex.env.get('small_model')
+    if isinstance(pref, list):
+        pref.append(z3.And(zint(mn) == MIN_DEFAULT, zint(mx) == MAX_DEFAULT, zint(attempts) >= 0, zint(attempts) <= 8))
     return (nominal, simp(nominal + fuzz))
 
 
